@@ -2,5 +2,5 @@ SPECIFICATION Spec
 CONSTANTS
   NM = 3
   MaxLen = 4
-INVARIANTS Correct
+INVARIANTS SetAgrees Correct
 CHECK_DEADLOCK FALSE
